@@ -44,7 +44,8 @@ def place_demo(wt, demo_src, ident):
             f.write('\n#[cfg(test)]\n#[path = "%s"]\nmod %s;\n' % (os.path.basename(rel), name))
         test_cmd = "cargo test --offline --lib %s -- --test-threads=1" % name
     else:
-        test_cmd = "cargo test --offline --test %s -- --test-threads=1" % os.path.basename(rel)[:-3]
+        feat = " --features e57_verif" if "--features e57_verif" in text else ""
+        test_cmd = "cargo test --offline%s --test %s -- --test-threads=1" % (feat, os.path.basename(rel)[:-3])
     return rel, test_cmd
 
 
